@@ -5,6 +5,9 @@ else refers to them.  Core Lean only.
 * `V0`: the textual pre-pass BEFORE /repo commit 0cf3884e ("leave string literals alone
   when rewriting YSON type constructors") – `prepass_v0_in_string_witness`,
   `dedup_empty_v0_witness`.
+* `V0Quote`: `Marshal` BEFORE the JSON-string-literal fix: strings printed with strconv.Quote
+  (Go-only escapes `\a \v \xXX \UXXXXXXXX`), object keys printed raw – `go_quote_v0_witness`,
+  `key_unescaped_v0_witness`.
 * `V0Float`: the tree-level parser BEFORE the UseNumber fix: numbers decoded as float64
   (`int64(raw["value"].(float64))`, exact integer arithmetic: round to nearest even, 53
   bits; out-of-range conversions give the amd64 result) and unchecked type assertions that
@@ -319,3 +322,99 @@ def parse (wantObj : Bool) (text : Str) : Res Yson :=
 def roundTrip (v : Yson) : Res Yson := parse v.isObj (marshal v)
 
 end Yorkie.Yson.V0Float
+
+namespace Yorkie.Yson.V0Quote
+open Yorkie.Yson
+
+/-- strconv's appendEscapedRune for quote `"` (valid runes only) -/
+def quoteChar (c : Nat) : Str :=
+  if c == 34 then [92, 34]
+  else if c == 92 then [92, 92]
+  else if isPrint c then [c]
+  else if c == 7 then [92, 97]
+  else if c == 8 then [92, 98]
+  else if c == 12 then [92, 102]
+  else if c == 10 then [92, 110]
+  else if c == 13 then [92, 114]
+  else if c == 9 then [92, 116]
+  else if c == 11 then [92, 118]
+  else if c < 32 || c == 127 then [92, 120, hexDigit (c / 16), hexDigit (c % 16)]
+  else if c < 0x10000 then
+    [92, 117, hexDigit (c / 4096), hexDigit (c / 256 % 16), hexDigit (c / 16 % 16), hexDigit (c % 16)]
+  else
+    [92, 85, hexDigit (c / 0x10000000 % 16), hexDigit (c / 0x1000000 % 16), hexDigit (c / 0x100000 % 16),
+     hexDigit (c / 0x10000 % 16), hexDigit (c / 4096 % 16), hexDigit (c / 256 % 16), hexDigit (c / 16 % 16),
+     hexDigit (c % 16)]
+
+def quoteBody : Str → Str
+  | [] => []
+  | c :: r => quoteChar c ++ quoteBody r
+
+/-- strconv.Quote -/
+def quote (s : Str) : Str := 34 :: (quoteBody s ++ [34])
+
+def renderAttr (p : Str × Str) : Str := quote p.1 ++ [58] ++ quote p.2
+
+/-- the body of `"attrs":{…}`: the rendered pairs, sorted as strings (Go sorts the
+rendered `"k":"v"` strings, not the keys) -/
+def renderAttrs (a : Attrs) : Str := joinWith [44] (sortStrs (a.map renderAttr))
+
+def marshalTextNode (n : TextNode) : Str :=
+  if n.attrs.isEmpty then cp%"{\"val\":" ++ quote n.val ++ cp%"}"
+  else cp%"{\"val\":" ++ quote n.val ++ cp%",\"attrs\":{" ++ renderAttrs n.attrs ++ cp%"}}"
+
+mutual
+def marshalTree : TreeNode → Str
+  | .mk ty v a c =>
+    if ty == sText then cp%"{\"type\":" ++ quote ty ++ cp%",\"value\":" ++ quote v ++ cp%"}"
+    else if a.isEmpty then
+      cp%"{\"type\":" ++ quote ty ++ cp%",\"children\":[" ++ joinWith [44] (marshalTreeList c) ++ cp%"]}"
+    else
+      cp%"{\"type\":" ++ quote ty ++ cp%",\"attrs\":{" ++ renderAttrs a ++ cp%"},\"children\":["
+        ++ joinWith [44] (marshalTreeList c) ++ cp%"]}"
+def marshalTreeList : List TreeNode → List Str
+  | [] => []
+  | x :: r => marshalTree x :: marshalTreeList r
+end
+
+def marshalDbl : Dbl → Str
+  | .nan => cp%"NaN"
+  | .posInf => cp%"+Inf"
+  | .negInf => cp%"-Inf"
+  | .fin t => t
+
+def marshalCounter : Counter → Str
+  | .int n => cp%"Counter(Int(" ++ showInt n ++ cp%"))"
+  | .long n => cp%"Counter(Long(" ++ showInt n ++ cp%"))"
+  | .dedup n regs => cp%"DedupCounter(Int(" ++ showInt n ++ cp%"),\"" ++ b64Encode regs ++ cp%"\")"
+
+mutual
+/-- `Marshal()` / marshalElement / marshalPrimitive -/
+def marshal : Yson → Str
+  | .null => cp%"null"
+  | .bool true => cp%"true"
+  | .bool false => cp%"false"
+  | .double d => marshalDbl d
+  | .str s => quote s
+  | .int n => cp%"Int(" ++ showInt n ++ cp%")"
+  | .long n => cp%"Long(" ++ showInt n ++ cp%")"
+  | .bytes b => cp%"BinData(\"" ++ b64Encode b ++ cp%"\")"
+  | .date t => cp%"Date(\"" ++ t ++ cp%"\")"
+  | .counter c => marshalCounter c
+  | .text ns => cp%"Text([" ++ joinWith [44] (ns.map marshalTextNode) ++ cp%"])"
+  | .tree r => cp%"Tree(" ++ marshalTree r ++ cp%")"
+  | .arr xs => [91] ++ joinWith [44] (marshalList xs) ++ [93]
+  | .obj kvs => [123] ++ joinWith [44] (marshalKvs kvs) ++ [125]
+def marshalList : List Yson → List Str
+  | [] => []
+  | x :: r => marshal x :: marshalList r
+/-- `"%s":%s` – the key is NOT escaped -/
+def marshalKvs : List (Str × Yson) → List Str
+  | [] => []
+  | (k, x) :: r => ([34] ++ k ++ [34, 58] ++ marshal x) :: marshalKvs r
+end
+
+/-- `Unmarshal(v.Marshal())` with the old printer and the current reader -/
+def roundTrip (v : Yson) : Res Yson := Yorkie.Yson.parse v.isObj (marshal v)
+
+end Yorkie.Yson.V0Quote
